@@ -192,14 +192,76 @@ def explore_config(case):
             "reps": [list(r) for r in stats["representatives"][-3:]], "outcome": list(kinds) or ["consistent"]}
 
 
+PAIR_OPS = ["simA", "simB", "rf", "rf_density", "interp"]
+
+
+def explore_pair(case):
+    """Two live reservoirs used alternately: every observation on either object must equal what the same
+    object observes when it executes its own calls alone (instances do not share state)."""
+    import collections  # noqa: PLC0415
+
+    cfgs = [tuple(case["configs"][0]), tuple(case["configs"][1])]
+    alphabet2 = [(i, op) for i in (0, 1) for op in PAIR_OPS]
+
+    def build2(hist):
+        objs = [fresh(cfgs[0]), fresh(cfgs[1])]
+        obs = [apply(objs[i], op, cfgs[i]) for i, op in hist]
+        return objs, obs
+
+    solo_cache = {}
+
+    def solo(i, ops):
+        k = (i, tuple(ops))
+        if k not in solo_cache:
+            solo_cache[k] = build(list(ops), cfgs[i])[1]
+        return solo_cache[k]
+
+    objs, _ = build2([])
+    seen = {(key(objs[0]), key(objs[1])): ()}
+    frontier = collections.deque([()])
+    transitions, viol, closed = 0, [], True
+    while frontier:
+        hist = frontier.popleft()
+        if len(hist) >= case["depth"]:
+            closed = False
+            continue
+        for letter in alphabet2:
+            nxt = hist + (letter,)
+            transitions += 1
+            objs, obs = build2(nxt)
+            i, op = letter
+            mine = [o for j, o in nxt if j == i]
+            want = solo(i, mine)[-1]
+            if not obs_equal(obs[-1], want):
+                viol.append(V("instances-share-state", f"with two live reservoirs, history {list(nxt)} makes object {i} "
+                              f"observe {_short(obs[-1], want)} for {op}; alone with {mine} it observes {_short(want, obs[-1])}",
+                              case={"configs": case["configs"], "pair_history": [list(x) for x in nxt]}, tol=0))
+            k2 = (key(objs[0]), key(objs[1]))
+            if k2 not in seen:
+                seen[k2] = nxt
+                frontier.append(nxt)
+    viol.sort(key=lambda v: len(v["case"]["pair_history"]))
+    return {"violations": viol[:3], "stats": {"states": len(seen), "transitions": transitions,
+                                              "depth_reached": max(len(v) for v in seen.values()),
+                                              "frontier_closed_before_bound": closed},
+            "reps": [], "outcome": ["pair-consistent" if not viol else "instances-share-state"]}
+
+
+def explore_any(case):
+    return explore_pair(case) if "configs" in case else explore_config(case)
+
+
 def run(ctx):
     depth = 9 if ctx.thorough else 4
     cs = [{"config": list(cfg), "depth": depth} for cfg in CONFIGS]
-    res = ctx.pmap(explore_config, cs, chunksize=1)
-    per = [{"config": c["config"], **r["stats"]} for c, r in zip(cs, res) if "stats" in r]
+    pd = 5 if ctx.thorough else 4
+    cs += [{"configs": [list(CONFIGS[0]), list(CONFIGS[0])], "depth": pd},
+           {"configs": [list(CONFIGS[0]), list(CONFIGS[2])], "depth": pd}]
+    res = ctx.pmap(explore_any, cs, chunksize=1)
+    per = [{"config": c.get("config") or c["configs"], **r["stats"]} for c, r in zip(cs, res) if "stats" in r]
     st = sum(p["states"] for p in per)
     tr = sum(p["transitions"] for p in per)
-    reps = [{"config": c["config"], "history": h} for c, r in zip(cs, res) for h in r.get("reps", [])]
+    reps = [{"config": c.get("config"), "history": h} for c, r in zip(cs, res) for h in r.get("reps", [])]
     cov = {
         "states": st, "transitions": tr,
         "traces_validated_against_impl": tr * 2 + st * 3,
@@ -218,6 +280,9 @@ def run(ctx):
 
 
 def replay(case):
+    if "pair_history" in case:
+        r = explore_pair({"configs": case["configs"], "depth": len(case["pair_history"])})
+        return [v for v in r["violations"]]
     cfg = tuple(case["config"])
     h = list(case["history"])
     if len(h) >= 2 and h[-1] == h[-2] and h[-1] in ("rf", "rf_density", "interp"):
